@@ -91,7 +91,8 @@ def r20_1(ctx):
         ctx.check(seen == {"self.states", "self.qstates"}, "Stage.%s covers states and quadrature states" % fname, detail="a state family is not checked", expected="both loops", found=sorted(seen), fi=f)
     # 3. missing parameter value
     f = P.own_method("Stage", "_param_value")
-    has_guard(ctx, f, lambda t, k: "notinself._param_vals" in t and k == "raise", "Stage._param_value: parameter without value raises", "parameter without value", "if p not in self._param_vals: raise")
+    has_guard(ctx, f, lambda t, k: ("notinself._param_vals" in t and k == "raise") or ("inself._param_vals" in t and "notin" not in t and k == "else-raise"),
+              "Stage._param_value: parameter without value raises", "parameter without value", "if p not in self._param_vals: raise")
     # 4. no method
     f = P.own_method("DirectMethod", "transcribe")
     g = has_guard(ctx, f, lambda t, k: "stage.nx>0" in t and "stage.nu>0" in t and k == "raise", "DirectMethod.transcribe: stage with dynamics but no method raises", "no method declared",
